@@ -2,6 +2,7 @@ package checks
 
 import (
 	"bytes"
+	"encoding/json"
 	"errors"
 	"fmt"
 	"github.com/trustbloc/sidetree-go/pkg/util/ecsigner"
@@ -145,6 +146,18 @@ func (lc *lifecycleChecker) step(req []byte, typ string, facts oracle.OpFacts, w
 		w["err"] = err.Error()
 		c.Failf("built-request-refused:"+typ, w, "%s request produced by %s is refused by the matching parser: %v", typ, source, err)
 		return false
+	}
+	if typ == "create" && wantSuffix == "" {
+		// the suffix of a create is the hash of ITS suffix data (whatever other creates the process has seen)
+		var ro map[string]interface{}
+		if json.Unmarshal(req, &ro) == nil {
+			if sd, ok := ro["suffixData"].(map[string]interface{}); ok {
+				// (under the algorithm the suffix itself names: which configured algorithm is used is C03's subject)
+				if dm, derr := oracle.DecodeEncodedMultihash(op.UniqueSuffix); derr == nil {
+					wantSuffix = oracle.MustModelHash(dm.Code, oracle.MustGeneric(sd))
+				}
+			}
+		}
 	}
 	if string(op.Type) != typ || (wantSuffix != "" && op.UniqueSuffix != wantSuffix) {
 		w["got_type"], w["got_suffix"], w["want_suffix"] = op.Type, op.UniqueSuffix, wantSuffix
@@ -332,6 +345,28 @@ func c08Builders(c *fw.Case) {
 		facts.Patches = docAsModelPatches(wantDoc)
 	} else {
 		facts.Patches = patches
+	}
+	// the same keys and document registered under another anchor origin (and type) first: a different DID
+	{
+		twin := *info
+		twin.AnchorOrigin = fw.Pick(r, []interface{}{"https://twin.example", nil, map[string]interface{}{"d": "twin.example"}})
+		if oracle.JSONEqual(oracle.MustGenericSafe(twin.AnchorOrigin), oracle.MustGenericSafe(origin)) {
+			twin.AnchorOrigin = "https://twin2.example"
+		}
+		if treq, terr := client.NewCreateRequest(&twin); terr == nil {
+			c.Count("twin-creates", 1)
+			if top, perr := lc.st.Parser.Parse(lc.ns, treq); perr == nil {
+				var ro map[string]interface{}
+				json.Unmarshal(treq, &ro)
+				sd, _ := ro["suffixData"].(map[string]interface{})
+				if dm, derr := oracle.DecodeEncodedMultihash(top.UniqueSuffix); derr == nil {
+					if want := oracle.MustModelHash(dm.Code, oracle.MustGeneric(sd)); top.UniqueSuffix != want {
+						c.Failf("built-request-misparsed", map[string]interface{}{"request": string(treq), "got_suffix": top.UniqueSuffix, "want_suffix": want}, "create request parsed with suffix %s, its suffix data hashes to %s", top.UniqueSuffix, want)
+						return
+					}
+				}
+			}
+		}
 	}
 	if !lc.step(req, "create", facts, "", "NewCreateRequest") {
 		return
